@@ -51,6 +51,11 @@ def run_case(case):
 	nq, nr = case['nq'], case['nr']
 	queries = [sig() for _ in range(nq)]
 	refs = [sig() for _ in range(nr)]
+	if case.get('qdtype'):
+		# queries stored WIDER than the references and holding indices the reference dtype cannot represent (they alias modulo 2^16 / 2^32)
+		bits = 8 * np.dtype(dt).itemsize
+		queries = [np.array(sorted(set(int(v) for v in r.tolist()[:3]) | {int(v) + 2 ** bits for v in r.tolist()[:4]} | {2 ** bits + 5}), dtype=case['qdtype'])
+		           for r in (refs + [sig()])[:nq]] if nr else queries
 	if case.get('distinct'):
 		# nested signatures: every reference has a different distance to every other one and to the query
 		refs = [np.array(sorted(range(0, 3 * (j + 1) + j * j)), dtype=dt) for j in range(nr)]
@@ -135,6 +140,11 @@ def cases(tier, seed):
 		conts = ['array', 'list', 'plain', 'hdf5'] if nr else ['array', 'list', 'hdf5']     # an empty plain list carries no k-mer spec / dtype: outside the stated domain
 		yield {'kind': 'array', 'nq': 1, 'nr': nr, 'refs': rnd.choice(conts), 'out': rnd.choice([None, 'given', 'given', 'badshape', 'baddtype']),
 		       'threads': rnd.choice([None, 1, 2, 7, 16]), 'seed': rnd.randrange(10 ** 6), 'dtype': rnd.choice(['u2', 'u2', 'i4', 'u8'])}
+		if i % 4 == 0 and nr:
+			rd = rnd.choice(['u2', 'u4'])
+			yield {'kind': 'array', 'nq': 1, 'nr': nr, 'refs': rnd.choice(conts), 'out': None, 'threads': None, 'seed': rnd.randrange(10 ** 6), 'dtype': rd, 'qdtype': 'u8' if rd == 'u4' else rnd.choice(['u4', 'u8', 'i8'])}
+			yield {'kind': 'matrix', 'nq': 2, 'nr': nr, 'refs': rnd.choice(conts), 'queries': 'plain', 'ref_indices': None, 'chunksize': rnd.choice([None, 2]), 'out': None,
+			       'threads': None, 'seed': rnd.randrange(10 ** 6), 'dtype': rd, 'qdtype': 'u8'}
 		nq = rnd.choice([0, 1, 2, 4])
 		idx = None
 		if rnd.random() < .5 and nr:
